@@ -14,6 +14,9 @@ structure DState where
   q   : Q := {}
   /-- C19: the abstract FIFO run alongside, its answer to the last queue op, and whether a push
       has re-used an id that still had a ticket since the last resynchronisation -/
+  -- C11: a level restored from a snapshot of `lvl`, fed the same continuation
+  fork : Option (Level × Nat) := none
+  lastForkMakers : String := ""
   -- C04: makers of the model's last match; pending deviations from the property's order
   lastMakers : String := ""
   c04F1 : Bool := false
@@ -31,6 +34,19 @@ def parseUpdate : List String → Option Update
   | ["cancel", id] => do some (.cancel (← parseId id))
   | ["replace", id, p, n, sd] => do some (.replace (← parseId id) (← p.toNat?) (← n.toNat?) (← parseSide sd))
   | _ => none
+
+/-- the level's orders in the listing order the implementation used (ids); admissible only if it
+    names every resting order exactly once and is sorted by timestamp -/
+def arrange (l : Level) (ids : String) : Option (List Order) :=
+  match parseList parseId ids with
+  | none => none
+  | some idl =>
+    match idl.mapM (fun id => l.map.find id) with
+    | none => none
+    | some os =>
+      let sorted := (os.zip (os.drop 1)).all (fun (p : Order × Order) => p.1.ts ≤ p.2.ts)
+      let once := idl.all (fun i => (idl.filter (· == i)).length == 1)
+      if sorted && once && os.length == l.map.length then some os else none
 
 def showMA (r : MatchOut) : String :=
   "c=" ++ toString r.consumed ++ " u=" ++ showOptOrder r.updated ++ " hr=" ++ toString r.hiddenRed ++
@@ -93,13 +109,14 @@ def step (s : DState) (line : String) : DState × String :=
     | _, _ => bad s line
   | ["new", p] =>
     match p.toNat? with
-    | some p => ({ s with lvl := Level.new p, g := 0, c04F1 := false, c04F2 := false, lastMakers := "" }, "new")
+    | some p => ({ s with lvl := Level.new p, g := 0, c04F1 := false, c04F2 := false, lastMakers := "", fork := none }, "new")
     | none => bad s line
   | ["add", o] =>
     match parseOrder o with
     | some o =>
       -- joining at the back fails when the id still has a (stale) ticket in the queue
-      ({ s with lvl := s.lvl.addOrder o, c04F2 := s.c04F2 || s.lvl.tickets.contains o.id }, "add ret=" ++ showOrder o)
+      ({ s with lvl := s.lvl.addOrder o, c04F2 := s.c04F2 || s.lvl.tickets.contains o.id,
+                fork := s.fork.map (fun (f : Level × Nat) => (f.1.addOrder o, f.2)) }, "add ret=" ++ showOrder o)
     | none => bad s line
   | ["match", q, taker] =>
     match q.toNat?, parseId taker with
@@ -110,7 +127,12 @@ def step (s : DState) (line : String) : DState × String :=
       let dev := !(C04.matchOrderOk before after)
       -- a deviation is due to a leftover ticket when some surviving id had more than one ticket
       let dup := (after.map (·.id)).any (fun i => (s.lvl.tickets.filter (· == i)).length > 1)
+      let fk := s.fork.map (fun (f : Level × Nat) => f.1.matchOrder q t f.2)
       ({ s with lvl := l, g := g, lastMakers := showList (fun (t : Tx) => showId t.maker ++ ":" ++ toString t.qty) r.txs,
+                fork := fk.map (fun x => (x.1, x.2.2)),
+                lastForkMakers := match fk with
+                  | some x => showList (fun (t : Tx) => showId t.maker ++ ":" ++ toString t.qty) x.2.1.txs
+                  | none => "",
                 c04F1 := s.c04F1 || (dev && !dup), c04F2 := s.c04F2 || (dev && dup) },
        "match " ++ showMatch r)
     | _, _ => bad s line
@@ -118,7 +140,7 @@ def step (s : DState) (line : String) : DState × String :=
     match parseUpdate rest with
     | some u =>
       let (l, out) := s.lvl.update u
-      ({ s with lvl := l }, "upd " ++ showUpd out)
+      ({ s with lvl := l, fork := s.fork.map (fun (f : Level × Nat) => ((f.1.update u).1, f.2)) }, "upd " ++ showUpd out)
     | none => bad s line
   | ["qnew"] => ({ s with q := {}, fifo := [], specOut := "qnew", stale := false }, "qnew")
   | ["q.push", o] =>
@@ -154,6 +176,33 @@ def step (s : DState) (line : String) : DState × String :=
   | ["q.tovec"] =>
     ({ s with specOut := "q.tovec " ++ showList showOrder (canonSort s.fifo) },
      "q.tovec " ++ showList showOrder (canonSort s.q.toVec))
+  | ["rebuild", kind, l] =>
+    match arrange s.lvl l with
+    | some os =>
+      let lvl' := if kind == "data" || kind == "serde" || kind == "text" || kind == "lying-data"
+        then Level.fromOrders s.lvl.price os
+        else Level.fromSnapshot { price := s.lvl.price, vis := s.lvl.vis, hid := s.lvl.hid, cnt := s.lvl.cnt, orders := os }
+      ({ s with lvl := lvl' }, "rebuild ok")
+    | none => (s, "rebuild inadmissible-listing")
+  | ["fork", _, l] =>
+    match arrange s.lvl l with
+    | some os =>
+      ({ s with fork := some (Level.fromSnapshot { price := s.lvl.price, vis := s.lvl.vis, hid := s.lvl.hid,
+                                                   cnt := s.lvl.cnt, orders := os }, s.g) }, "fork ok")
+    | none => (s, "fork inadmissible-listing")
+  | ["judge.C10", pre, post] => (s, if pre == post then "J C10 ok" else "J C10 bad content-or-aggregates-changed")
+  | ["judge.C10list", l] =>
+    match parseList parseOrder l with
+    | some os =>
+      let sorted := (os.zip (os.drop 1)).all (fun (p : Order × Order) => p.1.ts ≤ p.2.ts)
+      let once := os.all (fun o => (os.filter (fun x => x.id == o.id)).length == 1)
+      (s, if sorted && once then "J C10 ok" else "J C10 bad listing-not-sorted-or-not-once")
+    | none => bad s line
+  | ["judge.C11", mk, fk] =>
+    if mk != s.lastMakers || fk != s.lastForkMakers then
+      (s, "J C11 bad makers: got " ++ mk ++ " / " ++ fk ++ " expected " ++ s.lastMakers ++ " / " ++ s.lastForkMakers)
+    else if mk != fk then (s, "J C11 known restore-order")
+    else (s, "J C11 ok")
   | ["judge.C04", makers] =>
     if makers != s.lastMakers then (s, "J C04 bad makers: got " ++ makers ++ " expected " ++ s.lastMakers)
     else if s.c04F1 then ({ s with c04F1 := false, c04F2 := false }, "J C04 known F1")
